@@ -134,6 +134,12 @@ let show_opts (t : tdef) : string =
   match Stdlib.List.map (function OWithoutRowid -> "W" | OStrict -> "S") (table_options t) with
   | [] -> "-" | l -> String.concat "" l
 
+(* declared type text of every column of a CREATE TABLE the plan contains (round 5) *)
+let show_types (t : tdef) : string =
+  match t.td_cols with
+  | [] -> "-"
+  | l -> String.concat "," (Stdlib.List.map (fun c -> hexs (string_of_bytes c.rc_name) ^ ":" ^ hexs (string_of_bytes c.rc_type)) l)
+
 let run_apply id =
   let fk = next_bool () in
   let tx = next_int () in          (* 0 on the connection, 1 through OpenTx, 2 inside a plain transaction *)
@@ -149,7 +155,7 @@ let run_apply id =
   let show head d' =
     Printf.printf "%s res %s\n" id head;
     (match planChanges cs with
-     | POk p -> Stdlib.List.iter (function SCreateTable t -> Printf.printf "%s create %s %s\n" id (hexs (string_of_bytes t.td_name)) (show_opts t) | _ -> ()) p
+     | POk p -> Stdlib.List.iter (function SCreateTable t -> Printf.printf "%s create %s %s %s\n" id (hexs (string_of_bytes t.td_name)) (show_opts t) (show_types t) | _ -> ()) p
      | PErr _ -> ());
     let ts = Stdlib.List.sort (fun a b -> compare (string_of_bytes a.et_name) (string_of_bytes b.et_name)) d'.d_tables in
     Stdlib.List.iter (fun t -> Printf.printf "%s %s\n" id (show_table tabs t)) ts in
